@@ -51,7 +51,8 @@ def check(ctx: Ctx) -> None:
             ctx.ob("C15.writer", "value", ok, f"the value written is '{norm(arg) if arg is not None else None}', not {param}.entered_input", file=FILE, line=call.lineno, function=owner.qualname)
             # unconditional, top-level statement of the function body, before the awaited evaluation
             top = [st for st in owner.node.body if any(x is call for x in ast.walk(st))]
-            ctx.ob("C15.writer", "unconditional", bool(top) and isinstance(top[0], ast.Expr), "the .set() is not an unconditional top-level statement of the coroutine", file=FILE, line=call.lineno, function=owner.qualname)
+            ctx.ob("C15.writer", "unconditional", bool(top) and isinstance(top[0], (ast.Expr, ast.Assign, ast.AnnAssign)),
+                   "the .set() is nested in a conditional/loop/handler: it is not executed on every path before the evaluation", file=FILE, line=call.lineno, function=owner.qualname)
             eval_lines = [n.lineno for n in ast.walk(owner.node) if isinstance(n, ast.Call) and (dotted(n.func) or "").endswith("evaluate_ahb_expression_tree")]
             ctx.ob("C15.writer", "before-evaluation", bool(eval_lines) and call.lineno < min(eval_lines), "the .set() does not precede the evaluation of the element's expression", file=FILE, line=call.lineno, function=owner.qualname)
     # own task: every call path into the owner from validate_segment goes through an argument of asyncio.gather
